@@ -24,6 +24,8 @@ func checkC01(c *Ctx, r *Report) {
 	checkQRSegments(c, r)
 	checkQRHeader(c, r)
 	checkQRCounts(c, r)
+	checkChooseVersion(c, r) // two-pass version recommendation (same obligations as under C13)
+	checkPureAxis(c, r, [][2]string{{"qrcode", "QRCodeReader.extractPureBits"}, {"qrcode", "QRCodeReader.moduleSize"}})
 	// error discipline on the QR chain
 	runEDrop(c, r, []string{"qrcode", "qrcode/encoder", "qrcode/decoder", "qrcode/detector"}, 20)
 	nf := c.newNilFlow()
@@ -840,4 +842,140 @@ func countAssignsAST(p *packages.Package, body ast.Node, obj types.Object) int {
 		return true
 	})
 	return n
+}
+
+// ---------------------------------------------------------------------------------------------------------------
+// S-AXIS: pure-barcode extraction keeps x with width and y with height
+// ---------------------------------------------------------------------------------------------------------------
+
+// axisLint infers, inside one function, which integer variables are x-coordinates, y-coordinates, the image width or
+// the image height (seeds: point[0] / point[1], GetWidth() / GetHeight(); propagation through sums and differences
+// by the first operand that has an axis) and reports comparisons and Get/Set calls that mix the two axes.
+func axisLint(c *Ctx, fd *ast.FuncDecl, p *packages.Package) (checked int, bad string) {
+	axis := map[types.Object]byte{} // 'x', 'y', 'W', 'H'
+	var exprAxis func(e ast.Expr) byte
+	exprAxis = func(e ast.Expr) byte {
+		e = ast.Unparen(e)
+		switch x := e.(type) {
+		case *ast.Ident:
+			return axis[identObj(p, x)]
+		case *ast.IndexExpr:
+			if t, ok := p.TypesInfo.TypeOf(x.X).Underlying().(*types.Slice); ok && isIntT(t.Elem()) {
+				if k, isK := constInt(p, x.Index); isK {
+					if k == 0 {
+						return 'x'
+					}
+					if k == 1 {
+						return 'y'
+					}
+				}
+			}
+		case *ast.CallExpr:
+			if ftv, ok := p.TypesInfo.Types[x.Fun]; ok && ftv.IsType() && len(x.Args) == 1 {
+				return exprAxis(x.Args[0])
+			}
+			if fn, ok := typeutil.Callee(p.TypesInfo, x).(*types.Func); ok && isMethodNamed(fn, "", "BitMatrix", fn.Name()) {
+				switch fn.Name() {
+				case "GetWidth":
+					return 'W'
+				case "GetHeight":
+					return 'H'
+				}
+			}
+		case *ast.BinaryExpr:
+			if x.Op == token.ADD || x.Op == token.SUB {
+				if a := exprAxis(x.X); a != 0 {
+					return a
+				}
+				return exprAxis(x.Y)
+			}
+		}
+		return 0
+	}
+	// two passes so that later definitions see earlier ones regardless of traversal details
+	for pass := 0; pass < 2; pass++ {
+		ast.Inspect(fd.Body, func(n ast.Node) bool {
+			as, ok := n.(*ast.AssignStmt)
+			if !ok || len(as.Lhs) != len(as.Rhs) {
+				return true
+			}
+			for i, l := range as.Lhs {
+				o := identObj(p, l)
+				if o == nil || !isIntT(o.Type()) {
+					continue
+				}
+				if _, has := axis[o]; has {
+					continue
+				}
+				if a := exprAxis(as.Rhs[i]); a != 0 && (as.Tok == token.DEFINE || as.Tok == token.ASSIGN) {
+					axis[o] = a
+				}
+			}
+			return true
+		})
+	}
+	compat := func(a, b byte) bool {
+		if a == 0 || b == 0 {
+			return true
+		}
+		norm := func(z byte) byte {
+			if z == 'W' {
+				return 'x'
+			}
+			if z == 'H' {
+				return 'y'
+			}
+			return z
+		}
+		return norm(a) == norm(b)
+	}
+	ast.Inspect(fd.Body, func(n ast.Node) bool {
+		switch x := n.(type) {
+		case *ast.BinaryExpr:
+			switch x.Op {
+			case token.LSS, token.LEQ, token.GTR, token.GEQ, token.EQL, token.NEQ:
+				a, b := exprAxis(x.X), exprAxis(x.Y)
+				if a != 0 && b != 0 {
+					checked++
+					// lengths along different axes may be compared (`bottom-top != right-left`): only a coordinate
+					// against the image extent of the other axis is wrong
+					if (a == 'W' || a == 'H' || b == 'W' || b == 'H') && !compat(a, b) && bad == "" {
+						bad = fmt.Sprintf("%s: `%s` compares a %c-axis value with the image's %s", c.pos(x.Pos()), exprString(x), map[bool]byte{true: a, false: b}[a == 'x' || a == 'y'], map[byte]string{'W': "width", 'H': "height", 'x': "x", 'y': "y"}[map[bool]byte{true: b, false: a}[a == 'x' || a == 'y']])
+					}
+				}
+			}
+		case *ast.CallExpr:
+			callee := typeutil.Callee(p.TypesInfo, x)
+			if (isMethodNamed(callee, "", "BitMatrix", "Get") || isMethodNamed(callee, "", "BitMatrix", "Set")) && len(x.Args) == 2 {
+				a, b := exprAxis(x.Args[0]), exprAxis(x.Args[1])
+				if a != 0 || b != 0 {
+					checked++
+				}
+				if (a == 'y' || a == 'H' || b == 'x' || b == 'W') && bad == "" {
+					bad = fmt.Sprintf("%s: `%s` passes a %s as the %s coordinate", c.pos(x.Pos()), exprString(x), map[bool]string{true: "y-axis value", false: "x-axis value"}[a == 'y' || a == 'H'], map[bool]string{true: "x", false: "y"}[a == 'y' || a == 'H'])
+				}
+			}
+		}
+		return true
+	})
+	return checked, bad
+}
+
+func checkPureAxis(c *Ctx, r *Report, targets [][2]string) {
+	r.Rule("S-AXIS", "in the pure-barcode extraction (extractPureBits, moduleSize) x-coordinates - values derived from point[0] - are compared only with the image width and passed only as the first coordinate, y-coordinates - derived from point[1] - only with the height and as the second coordinate: non-square renderings are read like square ones", len(targets))
+	for _, t := range targets {
+		fd, p := c.funcDeclOf(t[0], t[1])
+		key := t[0] + "." + t[1]
+		if fd == nil {
+			r.AnchorLost("S-AXIS", key, "function not found")
+			continue
+		}
+		r.Analysed(key)
+		n, bad := axisLint(c, fd, p)
+		if n == 0 {
+			r.Undecided("S-AXIS", key, c.pos(fd.Pos()), "no axis-typed comparison or pixel access recognised")
+			continue
+		}
+		r.Check(bad == "", "S-AXIS", key, c.pos(fd.Pos()), bad)
+	}
 }
